@@ -97,6 +97,21 @@ func propC05(t *rapid.T) {
 	case 0:
 		chunking = drawChunking(t, "chunking")
 		r := &chunkReader{data: stream, sizes: chunking, eofWithData: garbage == 0 && rapid.Bool().Draw(t, "eofWithData")}
+		if std := rapid.IntRange(0, 5).Draw(t, "stdReader"); std >= 4 {
+			// the readers most programs use: *bytes.Buffer / *bytes.Reader over the caller's slice
+			if std == 4 {
+				bb := bytes.NewBuffer(stream)
+				rn, err = recv.ReadFrom(bb)
+				consumed = len(stream) - bb.Len()
+				chunking = []int{-1}
+			} else {
+				br := bytes.NewReader(stream)
+				rn, err = recv.ReadFrom(br)
+				consumed = len(stream) - br.Len()
+				chunking = []int{-2}
+			}
+			break
+		}
 		if len(stream) >= 4 && rapid.IntRange(0, 3).Draw(t, "cookieHeader") == 2 {
 			// the documented variant for callers that have already consumed the 4-byte cookie
 			r.pos = 4
@@ -204,8 +219,22 @@ func propC05(t *rapid.T) {
 				fail("WriteTo to a writer that fails after %d of %d bytes (partial=%v) returned a nil error", k, len(by), partial)
 			}
 		}
+		if k > 0 {
+			// the failure is reported by the very call that takes the k-th byte (n == len(p) together with an error)
+			fw := &failWriter{budget: k, eager: true}
+			if _, err := b.WriteTo(fw); err == nil && fw.budget == 0 {
+				fail("WriteTo to a writer that accepts the first %d of %d bytes and reports its failure in the same call returned a nil error", k, len(by))
+			}
+		}
 	}
-	inst.CountN("C05", "failing-writer-calls", 2*len(offsets))
+	if len(by) > 0 {
+		// ... including the call that takes the very last byte
+		fw := &failWriter{budget: len(by), eager: true}
+		if _, err := b.WriteTo(fw); err == nil {
+			fail("WriteTo to a writer that accepts all %d bytes but reports a failure in its last call returned a nil error", len(by))
+		}
+	}
+	inst.CountN("C05", "failing-writer-calls", 3*len(offsets)+1)
 	inst.Count("C05", "entry:"+entryNames[entry])
 	inst.Count("C05", "receiver:"+recvName[:5])
 	ks, _ := live.Kinds(b)
